@@ -824,7 +824,9 @@ class Model:
         if self.boot is None:
             raise Skip('no boot')
         if self.hybrid is not None:
-            raise Skip('hybrid present')
+            # the hybrid boot sector describes the El Torito boot files: it has to go first (rm_isohybrid), the call must be refused
+            self.classes.add('rm_eltorito-on-hybrid')
+            return Call('rm_eltorito', {}, lambda: None, note=('must-refuse', 'isohybrid-present'))
         if 'hidden-bootfile' in self.avoid and any(not self.blobs[e['blob']].names for e in self.boot['entries'] if e['blob'] in self.blobs):
             raise Skip('avoid:hidden-bootfile')
 
